@@ -94,8 +94,9 @@ def r1_dce_guard(ctx):
                 r = atom_truth(cond, pol, keep_atom, body)
                 if r is not None:
                     tk = r
-                # find the def predicate helper
-                for x in walk(cond):
+                # find the def predicate helper (also behind `const bool removable = ...; if (removable)`)
+                cexp = resolve_local(body, cond)
+                for x in walk(cexp):
                     if x.get("k") == "call" and is_this(x.get("o")) and callee(x) and callee(x)["name"] != "keep_conservatively" \
                             and callee(x).get("cpk") == DCEC:
                         hc = x
